@@ -41,7 +41,12 @@ def gen_problem(rnd):
         a = numpy.array([[dy(rnd, -1, 1) for _ in range(m)] for _ in range(m)])
         cov = a @ a.T + numpy.diag([pos(rnd) for _ in range(m)])
         W = numpy.linalg.inv(cov)
-    return {"shape": shape, "G": G, "d": d, "cov": cov, "ck": ck, "W": W, "n": n, "m": m, "ints": ints}
+    # measurement errors on another scale (e.g. 10 microseconds, or thousands of units): the same problem with C -> s^2 C
+    s2 = rnd.choice([1.0, 1.0, 2.0 ** -34, 2.0 ** 20, 2.0 ** -14] if ck != "full" else [1.0, 2.0 ** -34, 2.0 ** -40, 2.0 ** 20])
+    if s2 != 1.0:
+        cov = cov * s2 if isinstance(cov, numpy.ndarray) else type(cov)(cov * s2)
+        W = W / s2
+    return {"shape": shape, "G": G, "d": d, "cov": cov, "ck": ck, "W": W, "n": n, "m": m, "ints": ints, "cov_scale": s2}
 
 
 def build(pr, rnd, D):
@@ -55,7 +60,7 @@ def build(pr, rnd, D):
     Gsrc, dsrc = (pr["G"].astype(int), pr["d"].astype(int)) if pr.get("ints") else (pr["G"], pr["d"])
     G = scipy.sparse.csr_matrix(Gsrc) if sparse else Gsrc.copy()
     cov = pr["cov"] if not isinstance(pr["cov"], numpy.ndarray) else pr["cov"].copy()
-    desc = f"{'sparse' if sparse else 'dense'} G {pr['m']}x{pr['n']} ({pr['shape']}), cov {pr['ck']}, premultiplication={pm}, dtype={numpy.dtype(dtype).name}, via {via}{', integer G and d' if pr.get('ints') else ''}"
+    desc = f"{'sparse' if sparse else 'dense'} G {pr['m']}x{pr['n']} ({pr['shape']}), cov {pr['ck']}, premultiplication={pm}, dtype={numpy.dtype(dtype).name}, via {via}{', integer G and d' if pr.get('ints') else ''}{', covariance scaled by %g' % pr['cov_scale'] if pr.get('cov_scale', 1.0) != 1.0 else ''}"
     kw = {}
     if pm is not None or rnd.random() < 0.5:
         kw["premultiplication"] = pm
@@ -175,6 +180,14 @@ def run(tier, seed):
                 obj.update_bounds(None, None)
                 if not (outside == float("inf")) or not common.same_float(inside, mis):
                     violations.append(Violation("bounds", f"{desc}: misfit inside the box {inside} (unbounded {mis}), outside the box {outside}", {"desc": desc}))
+        # the statement itself in double precision: misfit = 1/2 r^T C^-1 r, gradient = G^T C^-1 r
+        r_ = pr["G"] @ xa - pr["d"]
+        want_m = 0.5 * float((r_.T @ pr["W"] @ r_).item())
+        want_g = (pr["G"].T @ pr["W"] @ r_).flatten()
+        rt = 2e-3 if work == numpy.float32 else 1e-7
+        if math.isfinite(mis) and (abs(mis - want_m) > rt * max(1.0, abs(want_m)) or
+                                   any(abs(a - b) > rt * max(1.0, float(numpy.abs(want_g).max())) for a, b in zip(grad, want_g))):
+            violations.append(Violation("misfit-formula", f"{desc} at {x}: misfit {mis} / gradient {grad}, 1/2 r^T C^-1 r = {want_m} / G^T C^-1 r = {want_g.tolist()}", {"desc": desc, "point": x}))
         if not (math.isfinite(mis) and all(math.isfinite(g) for g in grad)):
             violations.append(Violation("nonfinite", f"{desc}: misfit {mis}, gradient {grad} at {x}", {"desc": desc}))
             continue
